@@ -21,6 +21,11 @@ A case (JSON-serialisable):
                            read also carries `spill` bytes of the message after it
      [4, c, cuts, spill]   client c reads the next message the bus wrote to it
      [5, c, key, later]    the key-th Deferred returned by an exported method fires; later = [0, form] | [1, exc]
+     [6, n, member, in, out]   the exporting side re-declares / adds a method on its n-th interface OBJECT while it is
+                           exported: ifaces[n].addMethod(Method(member, in, out)) (the model is given the declarations
+                           in force when the judged calls are made, see model_line)
+  exc_home where the classes of the raised exceptions are defined (absent / 0: at the top level of a module, 1: in the
+           body of another class, 2: inside a function): __qualname__ 'E' | 'Holder.E' | 'factory.<locals>.E'
   expect   oracle data per call (see spec_expect), absent for cases outside the property's quantifier
 
 Compared with the model: the invocation records on the exporters (where, which function, decoded arguments, caller
@@ -50,6 +55,15 @@ ASSUMPTIONS = [
     'exceptions raised locally by callRemote are compared by class (AttributeError / TypeError), failed Deferreds by '
     'kind (RemoteError from a reply with name, message, values; RemoteError from the return-signature check; any '
     'other failure; IntrospectionFailed), never by text except the message of a RemoteError mirroring a raise',
+    'an exporter that re-declares / adds methods on an interface object it already exports (schedule action 6) is '
+    'not in Model/System.v, whose exports are fixed for a run: the model is given the declarations in force AFTER the '
+    'last such action and the actions themselves are left out of its schedule.  The generator keeps this exact: '
+    'before the last re-declaration only unchanged members are called, afterwards calls go through proxies obtained '
+    'afterwards (introspection with replaceKnownInterfaces=True - all clients share one knownInterfaces here - or an '
+    'explicit declaration of the current interface).  The oracle for these cases is the property text itself: the '
+    'proxy discovered by introspection follows what the exporter exports when it is introspected',
+    'where an exception class is DEFINED (module level, nested in a class, local to a function) is not part of what '
+    'was raised: the model knows class name, dbusErrorName and text only, and the cases vary the place of definition',
     'error replies the dispatcher itself makes (UnknownObject / UnknownMethod / InvalidArgs, unencodable result) are '
     'compared by name class only, their texts are not modelled (C10)',
 ]
@@ -99,6 +113,7 @@ class Exec(object):
         # exporting side
         ifobjs = [E['DBusInterface'](n, *[E['Method'](m, i, o) for m, i, o in ms], noRegister=True)
                   for n, ms in case['ifaces']]
+        self.ifobjs = ifobjs
         self.classes = []
         for kk, cd in enumerate(case['classes']):
             ns = {'dbusInterfaces': [ifobjs[i] for i in cd['ifaces']]}
@@ -133,6 +148,12 @@ class Exec(object):
     def make_exc(self, x):
         cls_name, dname, text = x
         ns = {} if dname is None else {'dbusErrorName': dname}
+        # where the class statement stands (what a class statement nested in a class / in a function records)
+        home = self.case.get('exc_home', 0)
+        if home == 1:
+            ns['__qualname__'] = 'Holder.' + cls_name
+        elif home == 2:
+            ns['__qualname__'] = 'factory.<locals>.' + cls_name
         return type(cls_name, (Exception,), ns)(text)
 
     def make_func(self, pyname, fid, caller):
@@ -269,6 +290,10 @@ class Exec(object):
                     d.callback(c10.from_form(later[1], E))
                 else:
                     d.errback(self.make_exc(later[1]))
+        elif kind == 6:
+            _, n, member, sin, sout = a
+            if n < len(self.ifobjs):
+                self.ifobjs[n].addMethod(E['Method'](member, sin, sout))
 
     # -- what a scheduler may do next ---------------------------------------------------------------------------
     def deliverable(self):
@@ -356,18 +381,35 @@ def base_class():
             [[a[0], a[1], [] if a[2] is None else [a[2]], a[3]] for a in E['base_attrs']]]
 
 
+def current_ifaces(case):
+    """the exporter's declarations after every re-declaration of the schedule (action 6): a method of the same name
+    is replaced where it stands, a new one is added"""
+    out = [[n, [list(m) for m in ms]] for n, ms in case['ifaces']]
+    for a in case['sched']:
+        if a[0] == 6 and a[1] < len(out):
+            ms = out[a[1]][1]
+            for m in ms:
+                if m[0] == a[2]:
+                    m[1:] = [a[3], a[4]]
+                    break
+            else:
+                ms.append([a[2], a[3], a[4]])
+    return out
+
+
 def model_line(case):
     nc = len(case['classes'])
     mcls = []
+    now = current_ifaces(case)
     for cd in case['classes']:
-        ifs = [case['ifaces'][i] for i in cd['ifaces']]
+        ifs = [now[i] for i in cd['ifaces']]
         mcls.append([[ifs], [[a[0], a[1], [] if a[2] is None else [a[2]], a[3]] for a in cd['attrs']]])
     mcls.append(base_class())
     per = {}
     for c, path, ci in case['objects']:
         per.setdefault(c, []).append([path, [ci, nc]])
     objs = [[c, per[c]] for c in sorted(per)]
-    sched = [[0, 1, s(PROPS), [[s(m), s(i), s(o)] for m, i, o in PROPS_DECL], 0]] + [action_sexp(a) for a in case['sched']]
+    sched = [[0, 1, s(PROPS), [[s(m), s(i), s(o)] for m, i, o in PROPS_DECL], 0]] + [action_sexp(a) for a in case['sched'] if a[0] != 6]
     return '(11 %d %s %d %d %s %s %s %s %s%s)' % (
         case['k'], common.dump([0] * case['k']), SERIAL0, FUEL,
         common.dump([[c, s(n), f] for c, n, f in case['names']]),
@@ -765,14 +807,17 @@ class Scenario(object):
         self.proxy_count = {i: 0 for i in range(1, k + 1)}
         self.decl_count = 0
         self.proxy_info = {}       # (client, pidx) -> (exporter client, path, [iface names in lookup order])
+        self.ifaces0 = None        # what the exporter declares at first, when it re-declares later (action 6)
+        self.exc_home = rng.choice([0, 0, 1, 2])
         for key, (fid, _) in self.w['fids'].items():
             tin, tout = self.w['sigs'][key]
             self.behs[fid], self.finals[fid] = gen_beh(rng, self.tg, tin, tout)
 
     def base_case(self):
-        return {'k': self.k, 'names': self.names, 'ifaces': self.w['ifaces'], 'classes': self.w['classes'],
+        return {'k': self.k, 'names': self.names, 'ifaces': self.ifaces0 or self.w['ifaces'],
+                'classes': self.w['classes'],
                 'objects': self.w['objects'], 'behs': [[f, b] for f, b in sorted(self.behs.items())],
-                'sched': [], 'kind': self.kind}
+                'sched': [], 'kind': self.kind, 'exc_home': self.exc_home}
 
     def exporter(self, idx=0):
         return self.w['objects'][idx]
@@ -891,8 +936,12 @@ def _run_schedule(scn, case, choose, rng, max_steps):
             expect.append(e)
 
     # interface objects are declared first: the n-th declared object is heap index n + 1 of the model
+    # (a prefix entry is an action, or (call action, expectation stub) for a call that is judged)
     for a in [x for x in scn.prefix if x[0] == 0] + [x for x in scn.prefix if x[0] != 0]:
-        issue(a, None)
+        if isinstance(a, tuple):
+            issue(a[0], a[1])
+        else:
+            issue(a, None)
         for _ in range(200):
             dl = ex.deliverable()
             if not dl:
@@ -1132,6 +1181,84 @@ def scenario_redeclared(rng):
     return scn
 
 
+def scenario_evolving(rng):
+    """the exporter's interface changes while the object is exported and AFTER it has been introspected (and used):
+    methods are re-declared under the same name with another signature, or added.  A proxy obtained afterwards - by
+    introspection that does not trust the process-wide table (replaceKnownInterfaces=True), or declared explicitly
+    with the current definition - must reach the methods as they are declared now.  scn.w is the world after the
+    changes (what the calls are judged against), scn.ifaces0 the declarations the exporter starts with."""
+    scn = Scenario(rng, 3, 1, 'evolving')
+    tg = scn.tg
+    ec, path, _ = scn.exporter()
+    c1, c2 = [c for c in (1, 2, 3) if c != ec]
+    force_deferred(scn, 0)
+
+    def show(ts):
+        return ''.join(mc.show(t) for t in ts)
+    ifaces0 = []
+    changes = []             # actions 6, in order
+    changed = set()          # (interface, member)
+    for n_idx, (n, ms) in enumerate(scn.w['ifaces']):
+        ms0 = []
+        for j, m in enumerate(ms):
+            r = rng.random()
+            if j == len(ms) - 1 and r < 0.25:
+                # a method that does not exist at first (the last one: added at the end)
+                changes.append([6, n_idx, m[0], m[1], m[2]])
+                changed.add((n, m[0]))
+                continue
+            if r < 0.7:
+                tin, tout = scn.w['sigs'][(n, m[0])]
+                old = None
+                for _ in range(10):
+                    how = rng.choice(['in', 'in', 'out', 'both'])
+                    oin = show(tg.types(rng.choice([0, 1, 1, 2]))) if how != 'out' else m[1]
+                    oout = show(tg.types(rng.choice([0, 1, 1, 2]))) if how != 'in' else m[2]
+                    if (oin, oout) != (m[1], m[2]):
+                        old = [m[0], oin, oout]
+                        break
+                if old is None:
+                    old = [m[0], m[1] + 'i', m[2]]
+                ms0.append(old)
+                changes.append([6, n_idx, m[0], m[1], m[2]])
+                changed.add((n, m[0]))
+            else:
+                ms0.append(list(m))
+        ifaces0.append([n, ms0])
+    if not changes:
+        n, ms = scn.w['ifaces'][0]
+        ifaces0[0][1][0] = [ms[0][0], ms[0][1] + 'i', ms[0][2]]
+        changes.append([6, 0, ms[0][0], ms[0][1], ms[0][2]])
+        changed.add((n, ms[0][0]))
+    rng.shuffle(changes)
+    scn.ifaces0 = ifaces0
+    # before: the object is introspected (its description has been asked for at least once) and perhaps used, through
+    # members that stay as they are
+    first = rng.choice([c1, c2])
+    scn.prefix += scn.intro_proxy(first, replace=rng.random() < 0.5)
+    stable = sorted(set(m for (n, m) in scn.w['fids'] if (n, m) not in changed)
+                    - set(m for (n, m) in changed))
+    if stable and rng.random() < 0.6:
+        scn.prefix.append(scn.call(first, 0, member=rng.choice(stable)))
+    if rng.random() < 0.3:
+        scn.prefix += scn.intro_proxy(c1 + c2 - first, replace=True)
+    # the change
+    scn.prefix += changes
+    # after: a proxy that reflects the exporter as it is now
+    caller = rng.choice([c1, c2])
+    if rng.random() < 0.75:
+        scn.prefix += scn.intro_proxy(caller, replace=True, wellknown=rng.random() < 0.3)
+    else:
+        scn.prefix += scn.explicit_proxy(caller)
+    p = scn.proxy_count[caller] - 1
+    names = sorted(set(m for (n, m) in changed))
+    scn.threads = []
+    for _ in range(rng.choice([1, 2, 2])):
+        member = rng.choice(names) if rng.random() < 0.75 else None
+        scn.threads.append([scn.call(caller, p, member=member)])
+    return scn
+
+
 def scenario_random(rng):
     k = rng.choice([2, 3, 3, 4])
     nexp = 1 if k == 2 or rng.random() < 0.6 else 2
@@ -1299,6 +1426,8 @@ def gen_cases(ctx, res):
         cases.append(random_schedule(scenario_big_variants(rng), rng))
     for _ in range(ctx.n(60, 600)):
         cases.append(random_schedule(scenario_redeclared(rng), rng))
+    for _ in range(ctx.n(80, 800)):
+        cases.append(random_schedule(scenario_evolving(rng), rng))
     res.extra['exhaustive_interleavings'] = ex_count
     res.extra['exhaustive_complete'] = bool(complete)
     for _ in range(ctx.n(6, 30)):
@@ -1316,7 +1445,9 @@ def run(ctx, res):
                 'well-known names, 1-3 concurrent calls; EVERY interleaving of call issue / link deliveries / Deferred '
                 'firing for the small scenarios, random schedules beyond, every message cut into random reads; plus a '
                 'malformed stream (wrong counts, unknown members, mismatched declarations, unknown destinations, bad '
-                'names, required-interface checks, cache conflicts, unencodable results).  Non-trivial: at least one '
+                'names, required-interface checks, cache conflicts, unencodable results); exporters that re-declare / '
+                'add methods on an exported interface after it was introspected, then fresh proxies; exception classes '
+                'defined at module level, inside a class, inside a function.  Non-trivial: at least one '
                 'exported method ran or one Deferred completed')
     cases = gen_cases(ctx, res)
     evaluate(ctx, cases, res)
